@@ -4,6 +4,8 @@
 Both keep the literal order of the dict (lookup semantics - first match / last key wins - live in
 FcModel/VtuWriter.lean)."""
 from __future__ import annotations
+
+PROPERTIES = ['C13', 'C18']   # properties whose proofs depend on these declarations
 import ast
 
 
